@@ -2,12 +2,16 @@ package checks
 
 import (
 	"fmt"
+	"go/ast"
+	"go/constant"
 	"go/types"
+	"golang.org/x/tools/go/types/typeutil"
 	"path/filepath"
 	"regexp"
 	"sort"
 	"strconv"
 	"strings"
+	"verif/sa/internal/flow"
 
 	"golang.org/x/tools/go/ssa"
 
@@ -315,6 +319,7 @@ func checkC17(p *core.Program, r *core.Report) {
 		"O17.4": "to_binary literals = Go width forms at the name's integer values",
 		"O17.5": "CI export dimensions = D, B; predicted definition names exist; output path is the imported file",
 		"O17.6": "clone transparency of in-place gadgets",
+		"O17.9": "extract-circuit writes the model into a truncated file (os.Create / O_TRUNC), so the file depends on the dimensions only",
 		"O17.7": "proof-file references resolve in the model",
 		"O17.8": "extraction deterministic; ExtractLean(deletion, insertion) under SemaphoreMTB/BN254",
 	} {
@@ -619,6 +624,8 @@ func checkC17(p *core.Program, r *core.Report) {
 	sort.Slice(gl, func(i, j int) bool { return gl[i].Name < gl[j].Name })
 	mut := mutatedFields(p, ctx, gl)
 	checkOwnership(p, r, gl, mut, "O17.6")
+	// ---- O17.9
+	checkExtractOutputFile(p, r)
 	// ---- O17.8
 	checkExtractEntry(p, r, model)
 	sub := core.NewReport("sub", r.Tier)
@@ -808,4 +815,81 @@ func checkExtractEntry(p *core.Program, r *core.Report, model *lean.Model) {
 		}
 	}
 	r.Check(len(probs) == 0, "O17.8", core.FuncName(in)+": extractor call", p.Pos(call.Pos()), "ExtractCircuits(\"SemaphoreMTB\", BN254, &deletion, &insertion)", strings.Join(probs, "; "))
+}
+
+// checkExtractOutputFile decides O17.9: the command that writes the Lean model (run by CI over the committed file) writes it
+// into a file that is truncated first — os.Create, os.WriteFile, or os.OpenFile with O_TRUNC and without O_APPEND — so that
+// the file's contents are a function of the circuit dimensions alone and not of what the path held before.
+func checkExtractOutputFile(p *core.Program, r *core.Report) {
+	ix := indexFuncs(p)
+	for _, c := range cliCommands(p) {
+		if c.Name != "extract-circuit" || c.Action.Node == nil {
+			continue
+		}
+		n := 0
+		var bad []string
+		pos := p.Pos(c.Lit.Pos())
+		for _, u := range ix.closure([]flow.FuncUnit{c.Action}) {
+			if u.Pkg != c.Pkg {
+				continue
+			}
+			info := u.Pkg.TypesInfo
+			ast.Inspect(u.Node, func(m ast.Node) bool {
+				call, ok := m.(*ast.CallExpr)
+				if !ok {
+					return true
+				}
+				fn, _ := typeutil.Callee(info, call).(*types.Func)
+				if fn == nil {
+					return true
+				}
+				switch fn.FullName() {
+				case "os.Create", "os.WriteFile", "io/ioutil.WriteFile":
+					n++
+				case "os.OpenFile":
+					n++
+					pos = p.Pos(call.Pos())
+					if len(call.Args) == 3 {
+						tv := info.Types[call.Args[1]]
+						if tv.Value == nil {
+							bad = append(bad, "os.OpenFile at "+p.Pos(call.Pos())+" with non-constant flags")
+						} else if fl, ok := constant.Int64Val(tv.Value); ok {
+							const oAppend, oTrunc = 0x400, 0x200 // os.O_APPEND, os.O_TRUNC on the analysed platform are read below
+							_ = oAppend
+							_ = oTrunc
+							if fl&int64(osFlag(p, "O_TRUNC")) == 0 {
+								bad = append(bad, "os.OpenFile at "+p.Pos(call.Pos())+" without O_TRUNC: a longer file already at the path keeps its tail after the new model")
+							}
+							if fl&int64(osFlag(p, "O_APPEND")) != 0 {
+								bad = append(bad, "os.OpenFile at "+p.Pos(call.Pos())+" with O_APPEND: the model is added to whatever the path held")
+							}
+						}
+					}
+				}
+				return true
+			})
+		}
+		cn := "main.cmd:extract-circuit: output file is truncated before the model is written"
+		switch {
+		case len(bad) > 0:
+			r.Violation("O17.9", cn, pos, "%s", strings.Join(bad, "; "))
+		case n == 0:
+			r.Undecided("O17.9", cn, pos, "no os.Create / os.OpenFile / os.WriteFile found in the command: cannot tell how the output file is opened")
+		default:
+			r.OK("O17.9", cn, pos, "%d file-creation site(s), each truncating", n)
+		}
+		r.Count("extract-circuit output sites", n)
+	}
+}
+
+// osFlag reads the value of an os.O_* constant as type-checked for the analysed platform.
+func osFlag(p *core.Program, name string) int64 {
+	if pk, ok := p.All["os"]; ok && pk.Types != nil {
+		if c, ok := pk.Types.Scope().Lookup(name).(*types.Const); ok {
+			if v, exact := constant.Int64Val(c.Val()); exact {
+				return v
+			}
+		}
+	}
+	return 0
 }
